@@ -1,19 +1,23 @@
 """C01 — tree construction follows the WHATWG algorithm (model = pinned reference, tied to the code)."""
 from h5 import lean
 from props import _tree
+from props import _whatwg
 
 ID = "C01"
 PROPS_MODULE = "H5.Props.C01"
+EXTRA_PROPS_MODULES = ["H5.Spec.TreeProps"]
 GEN_MODULES = ["Dispatch", "ParserLiterals", "Constants"]
-CORRESPONDENCE_OPS = ["treev", "parse"]
+CORRESPONDENCE_OPS = ["treev", "parse", "treecmp"]
 SOURCES = ["html5lib/html5parser.py", "html5lib/treebuilders/base.py", "html5lib/constants.py", "html5lib/_tokenizer.py"]
 LEVEL = "translation_validation"
 TRUSTED = ["hand model H5.Model.TreeBuilder (one Lean function per Python handler, all 23 phases, dispatch through the tables "
            "extracted from /repo on every run) tied by exact comparison of tree, parse-error codes + datavars, tokenizer "
            "state switches and cdataAllowed after every token",
-           "reference for the WHATWG clause: the model itself = the behaviour of the pinned tree, which deviates from the "
-           "standard in the recorded ways (DESIGN section 9 / known_findings: no template, older 'special' set, ...); "
-           "no independent Lean transcription of the standard's tree construction exists yet",
+           "reference for the WHATWG clause: H5.Spec.TreeConstruction, an independent executable Lean transcription of the "
+           "standard's tree-construction stage (mid-2020 revision, incl. template), written from memory of the standard's "
+           "prose; the real tree is compared with it through `treecmp` on the token sequence the real parser consumed; "
+           "every difference is shrunk and classified (class confirmed by a NON-STANDARD switch of the specification that "
+           "reproduces html5lib's tree, or `whatwg:unexplained`); recorded deviations are in known_findings.json",
            "minidom/ElementTree read by direct traversal (tools/tree_corr.py)"]
 RULE = ("fixed hard cases + seeded soup built from the extracted dispatch tables (formatting mis-nesting x table/select/"
         "foreign, foster parenting, adoption agency with >= 8 nested blocks, fragments in every container, scripting on/off, "
@@ -64,8 +68,14 @@ def run(ctx):
             if a != b and T.dom_view(b) != a:
                 ctx.disagree("parse", rq, a, b)
         ctx.ops["parse(end-to-end)"] = len(preqs)
+    # ---- WHATWG clause: real tree vs the executable specification of the standard (tools/props/_whatwg.py)
+    _whatwg.clause(ctx)
     ctx.dist["phase_functions_reached"] = len(hits)
     ctx.notes.append("phase functions reached: %d" % len(hits))
+
+
+def witness_case(ctx, w):
+    _whatwg.witness_case(ctx, w)
 
 
 def replay(path):
